@@ -11,6 +11,7 @@ import (
 	"errors"
 	"io"
 	"os"
+	"runtime"
 	"strconv"
 	"strings"
 	"sync"
@@ -22,6 +23,23 @@ type Event struct {
 	N    int
 	Err  error
 	Data []byte
+	G    int64 // goroutine that performed the read (only when TrackG is set)
+}
+
+// TrackG makes the recorder note the reading goroutine (concurrent runs).
+var TrackG bool
+
+func goid() int64 {
+	var buf [64]byte
+	n := runtime.Stack(buf[:], false)
+	// "goroutine 123 [running]:"
+	s := string(buf[:n])
+	s = strings.TrimPrefix(s, "goroutine ")
+	if i := strings.IndexByte(s, ' '); i > 0 {
+		id, _ := strconv.ParseInt(s[:i], 10, 64)
+		return id
+	}
+	return -1
 }
 
 // maxData bounds the bytes kept per event and maxEvents the events kept
@@ -29,7 +47,7 @@ type Event struct {
 // the monitor. N always holds the true number of bytes delivered.
 const (
 	maxData   = 256
-	maxEvents = 4096
+	maxEvents = 1 << 16
 )
 
 // Recorder wraps the original crypto/rand.Reader.
@@ -72,7 +90,11 @@ func (w *Recorder) Read(p []byte) (int, error) {
 		if keep > maxData {
 			keep = maxData
 		}
-		w.log = append(w.log, Event{Req: len(p), N: n, Err: err, Data: append([]byte(nil), p[:keep]...)})
+		ev := Event{Req: len(p), N: n, Err: err, Data: append([]byte(nil), p[:keep]...)}
+		if TrackG {
+			ev.G = goid()
+		}
+		w.log = append(w.log, ev)
 	} else {
 		w.Dropped++
 	}
